@@ -21,7 +21,8 @@ from netconan import anonymize_files as AF
 from netconan import ip_anonymization as ipa
 from netconan import sensitive_item_removal as SIR
 
-WORDS = ["kitten", "zurnet"]
+WORDS = ["kitten", "zurnet", "cafe"]
+FIXED_T7 = "0822455D0A16544541"          # the same type-7 secret wherever the fixed-secret kinds occur
 BASE_ASNS = ["65001", "12", "4200000001", "0", "1"]
 _as_cache = {}
 
@@ -78,6 +79,9 @@ def kind_tokens(kind, r):
         "pwd-fixed-quoted": ("", [("snmp-server", None), ("community", None), (r.choice(['"FixedCommStrXq"', "'FixedCommStrXq'", '"FixedCommStrXq";', "[FixedCommStrXq]"]), "pwd"), ("RO", None)]),
         "v6-tail": (" ", [("tunnel", None), ("destination", None), (r.choice(["64:ff9b::198.51.100.9", "::ffff:203.0.113.77", "2001:db8:aaaa::172.31.200.14"]), "ip")]),
         "pwd-reserved-caps": ("", [("enable", None), ("password", None), (r.choice(["CHANGEME", "changeme"]), "resv")]),
+        "keystring-scrub": (" ", [("key-string", "scrub"), ("7", "scrub"), (FIXED_T7, "scrub")]),
+        "standby-keystring": ("", [("standby", None), ("1", None), ("authentication", None), ("md5", None), ("key-string", None), ("7", None), (FIXED_T7, "pwd"), ("timeout", None), ("30", None)]),
+        "v6-with-word": (" ", [("peer", None), (r.choice(["2001:db8:42::cafe:1", "2001:db8::cafe", "cafe:1::2"]), "ip|word")]),
         "v4-mask-zeros": (" ", [("netmask", None), (v4, "ip"), (r.choice(["255.255.255.000", "000.000.000.255", "255.255.000.000"]), None)]),
     }
     return table[kind]
@@ -245,7 +249,8 @@ def run_c12(ck, tier):
                     ev.append({"ev": "exc", "what": "anonymize_files: %r" % (e,)})
                     info.append(("fileentry", "EXC"))
             # line locality: each line alone through a fresh anonymizer (no secrets: numbering depends on history)
-            if "pwd" not in feats and len(lines) > 1:
+            fixed_only = all(k in ("keystring-scrub", "standby-keystring", "blank", "spaces", "plain", "plain-tabs", "v4", "v6", "v4-mask", "as", "word") for k in case["kinds"])
+            if ("pwd" not in feats or fixed_only) and len(lines) > 1:
                 try:
                     split = "".join(run_io(make_fa(feats, "TESTSALT"), ln)[0] for ln in lines)
                     ev.append({"ev": "same", "what": "split", "a": out, "b": split})
@@ -338,7 +343,7 @@ def run_c15(ck, tier):
 ADV = {
     "bs_n": "a\\nb", "bs_1": "x\\1y", "bs_g": "\\g<prefix>", "bs_d": "\\d+", "bs_end": "abc\\", "bs_b": "\\bword\\b", "paren": "(", "star": "*a*", "class_open": "[a-",
     "plusq": "+?", "dollar": "$", "caret": "^x", "dotstar": ".*", "brace1": "{1", "pipe": "a|b",
-    "md5_salt9": "$1$123456789$abcdefghijklmnopqrstuv", "md5_salt0": "$1$$abcdefghijklmnopqrstuv", "md5_nohash": "$1$salt$", "md5_salt10": "$1$1234567890$abcdefghijklmnopqrstuv", "md5_only": "$1$",
+    "md5_salt9": "$1$123456789$abcdefghijklmnopqrstuv", "md5_salt0": "$1$$abcdefghijklmnopqrstuv", "md5_nohash": "$1$salt$", "md5_salt10": "$1$1234567890$abcdefghijklmnopqrstuv", "md5_only": "$1$", "md5_emptysalt": "$1$$$abc", "md5_emptysalt2": "$1$$ab$cdefgh", "md5_dollars": "$1$$$$",
     "j9_short": "$9$ab", "j9_foreign": "$9$abc_def!", "j9_valid": G.j9_encode("hunter2", "Q"), "j9_trunc": G.j9_encode("hunter2", "i")[:-1], "j9_magic": "$9$", "j9_underscore": "$9$ab_cdefgh", "j9_nonascii": "$9$eZkv\u00e9X7dbs4JG",
     "sha_longsalt": "$6$" + "a" * 20 + "$" + "b" * 86, "sha_rounds_big": "$6$rounds=999999999999$saltsalt$" + "c" * 86,
     "sha_bare": "$6$", "sha_rounds": "$6$rounds=1$x$y",
@@ -398,6 +403,25 @@ def run_c14(ck, tier):
         traces.append(ev)
         meta.append({"case": c, "info": info})
         ck.count(("c14", json.dumps(c, sort_keys=True)))
+    # a long run through ONE FileAnonymizer (thousands of distinct addresses of both families): no point of the
+    # history may make a later line fail
+    rl = rng("C14", "longrun")
+    nl = 9000 if thorough else 3500
+    text = "".join("neighbor %s via %s\n" % (ipa.ipaddress.IPv6Address(rl.getrandbits(128)), ipa.ipaddress.IPv4Address(rl.getrandbits(32))) for _ in range(nl))
+    ev = [{"ev": "cfg", "collapse": True, "clauses": ["Structure"]}]
+    info = [None]
+    try:
+        out, errs = run_io(make_fa(["ip"], "longrun"), text)
+        for m in errs:
+            ev.append({"ev": "exc", "what": "ERROR logged: " + m})
+            info.append(("error-log", "long run"))
+        ev.append({"ev": "text", "nin": nl, "nout": len(split_keep(out))})
+        info.append(("linecount", "long run of %d address lines" % nl))
+    except Exception as e:
+        ev.append({"ev": "exc", "what": "%s: %s" % (type(e).__name__, str(e)[:200])})
+        info.append(("exception:" + type(e).__name__, "long run of %d address lines" % nl))
+    traces.append(ev)
+    meta.append({"case": {"frame": "long-run", "slots": ["addresses"], "salt": "longrun", "feats": ["ip"]}, "info": info})
     # through the file entry point: an exception only shows as an ERROR record and a truncated / missing file
     base = tlc.subdir("c14files")
     sub = r.sample(cases, min(len(cases), 1500 if thorough else 300))
